@@ -339,6 +339,31 @@ class Program:
         self._impl_self[key] = res
         return res
 
+    def impl_trait(self, item_name):
+        """last path segment of the trait an impl block implements (`impl fmt::Display for X` -> Display; a derive's span
+        is the derive name itself); None for inherent impls / unknown"""
+        m = re.search(r'<impl at ([^:>]+):(\d+):(\d+): (\d+):(\d+)>', item_name)
+        if not m:
+            return None
+        try:
+            import os
+            root = self.src_root or '/repo'
+            lines = open(os.path.join(root, m.group(1))).read().split('\n')
+            l1, c1, l2, c2 = int(m.group(2)), int(m.group(3)), int(m.group(4)), int(m.group(5))
+            if l1 == l2:
+                text = lines[l1 - 1][c1 - 1:c2 - 1]
+            else:
+                text = ' '.join([lines[l1 - 1][c1 - 1:]] + lines[l1:l2 - 1] + [lines[l2 - 1][:c2 - 1]])
+            text = text.strip()
+            if re.fullmatch(r'\w+', text):
+                return text
+            mm = re.match(r'^impl(?:<[^>]*>)?\s+(.+?)\s+for\s+(.+?)\s*$', text)
+            if mm:
+                return re.sub(r'<.*>$', '', mm.group(1).strip()).split('::')[-1]
+        except Exception:
+            pass
+        return None
+
     @staticmethod
     def last_segment(name):
         parts = mirparse.split_top(name, '::')
@@ -1725,11 +1750,13 @@ class Executor:
         name = callee
         # <T as Trait<..>>::method::<G>  -> Self type T, method
         self_ty = None
+        want_trait = None
         m = re.match(r'^<(.*)>::([A-Za-z_0-9]+)(::<.*>)?$', name)
         method = None
         if m and mirparse.find_top(m.group(1), ' as ') >= 0:
             k = mirparse.find_top(m.group(1), ' as ')
             self_ty = m.group(1)[:k]
+            want_trait = re.sub(r'<.*>$', '', m.group(1)[k + 4:].strip()).split('::')[-1]
             method = m.group(2)
         else:
             parts = mirparse.split_top(name, '::')
@@ -1775,6 +1802,12 @@ class Executor:
                     if ist == want:
                         score += 4
                     elif ist != 'Self' and re.fullmatch(r'\w+', ist):
+                        continue
+                itr = prog.impl_trait(it.name)
+                if itr is not None and want_trait:
+                    if itr == want_trait:
+                        score += 4
+                    else:
                         continue
             if self_ty is None:
                 parts = mirparse.split_top(name, '::')
